@@ -1,6 +1,7 @@
 mod decode;
 mod exec;
 mod gen;
+mod gen2;
 mod hist;
 mod metric;
 mod search;
@@ -68,6 +69,39 @@ fn main() {
             }
             for k in 0..count {
                 hs.push(gen::gen_history(seed.wrapping_mul(1_000_003).wrapping_add(k as u64), &p));
+            }
+            run_many(&hs, threads, &exec::RunCfg::default(), &out, first_no);
+        }
+        "family" => {
+            // special drivers: cancel | faults | mem | degenerate
+            let kind = arg(&args, "--kind").expect("--kind");
+            let seed: u64 = arg(&args, "--seed").map(|s| s.parse().unwrap()).unwrap_or(1);
+            let count: usize = arg(&args, "--count").map(|s| s.parse().unwrap()).unwrap_or(4);
+            let threads: usize = arg(&args, "--threads").map(|s| s.parse().unwrap()).unwrap_or(1);
+            let first_no: usize = arg(&args, "--first").map(|s| s.parse().unwrap()).unwrap_or(0);
+            let thorough = args.iter().any(|a| a == "--thorough");
+            let out = arg(&args, "--out").expect("--out prefix");
+            let mut hs = Vec::new();
+            for k in 0..count {
+                let s = seed.wrapping_mul(1_000_003).wrapping_add(k as u64);
+                match kind.as_str() {
+                    "cancel" => {
+                        // phase 1: measure the polls of the fault-free build on a scratch run
+                        let probe = gen2::cancel_history(s, None, thorough);
+                        let mut ev = Vec::new();
+                        let pool = rayon::ThreadPoolBuilder::new().num_threads(threads).build().unwrap();
+                        pool.install(|| exec::run_history(&probe, 0, &exec::RunCfg { observe: false, sides: false, ..Default::default() }, &mut ev));
+                        let polls = ev.iter().rev().find(|e| e["ev"] == "Build").map(|e| e["polls"].as_u64().unwrap()).unwrap_or(0);
+                        hs.push(gen2::cancel_history(s, Some(polls), thorough));
+                    }
+                    "faults" => {
+                        hs.extend(gen2::mapfull_histories(s));
+                        hs.push(gen2::tmpdir_history(s));
+                    }
+                    "mem" => hs.push(gen2::mem_history(s, thorough)),
+                    "degenerate" => hs.push(gen2::degenerate_history(s, thorough)),
+                    other => panic!("unknown family {other}"),
+                }
             }
             run_many(&hs, threads, &exec::RunCfg::default(), &out, first_no);
         }
